@@ -30,5 +30,6 @@ def strategy(tier):
 
 def check(spec):
     b, res = simcase.run_any(spec)
+    oracles.check_structure(spec, res, ID, ("links",))
     feats = oracles.conservation(res, ID)
     return {"nontrivial": len(feats) >= 2, "labels": simcase.labels_of(spec) + ["flow:" + f for f in sorted(feats)]}
